@@ -1,6 +1,18 @@
 ---- MODULE TraceSlicing ----
 (* Trace specification for C13.  Prop* conjuncts are what the property states; Impl* conjuncts say how the  *)
 (* present code does it and are disabled by PropOnly (spec-drift re-validation).                          *)
+(* Events (one per action; recorded by harness/c13_drv.c and harness/c13_val.c):                          *)
+(*   Reset   new block                                                                                   *)
+(*   Slices  ranges handed to the workers of one launch (hook H3)                        clauses c1 c2    *)
+(*   Value   flag events of the first driver (kept)                                      clauses c3 c4    *)
+(*   Cmp     value ledger: two results of the same call compared cell by cell; the harness measures       *)
+(*           (shape, number of cells that are not bit-identical, largest error in units of 2^-53 scale),  *)
+(*           the tolerance is Tol(tol, len) of Slicing.tla                                clauses c3 c4 c10 c11 *)
+(*   Tab     a distance table of the real library on INTEGER points (square or condensed form, any of     *)
+(*           the four kinds, any thread count, into a fresh or an already used output object): TLC        *)
+(*           recomputes every cell, the shape, and the axioms on the logged table      clauses c5 c6 c7 c8 *)
+(*   Lab     labels of integer points against integer centroids                          clause  c10      *)
+(*   Idx, Cond, Dist  as before                                                            clauses c7 c8 c9 *)
 EXTENDS Slicing, TraceBase
 CONSTANT PropOnly
 VARIABLE l
@@ -25,6 +37,20 @@ TSlices == /\ l <= Len(Tr) /\ Ev.e = "Slices" /\ Step /\ UNCHANGED <<rows, th>>
 TValue == /\ l <= Len(Tr) /\ Ev.e = "Value" /\ Step /\ UNCHANGED <<rows, th>>
           /\ Ev.equal = 1
 
+\* value ledger.  Prop: same shape; repeated runs and exact kinds (integer data, labels, selections) bit-identical;
+\* otherwise the largest error stays inside the tolerance the specification computes from the reduction length.
+\* Impl: the present workers use the summation order of the sequential routines, so MT and sequential results
+\* (and the condensed and the square table) are bit-identical.
+ExactWhat == {"repeat"}
+PropCmp(ev) == /\ ev.shape = 1
+               /\ ev.len >= 0 /\ ev.len <= 100000
+               /\ (ev.what \in ExactWhat \/ ev.tol = "exact") => ev.ndiff = 0
+               /\ ev.tol # "exact" => (ev.tol \in {"dot", "dist", "cos"} /\ ev.err <= Tol(ev.tol, ev.len))
+ImplWhat == {"mt-vs-st", "cond-vs-square", "vs-1thread"}
+ImplCmp(ev) == PropOnly \/ (ev.what \in ImplWhat => ev.ndiff = 0)
+TCmp == /\ l <= Len(Tr) /\ Ev.e = "Cmp" /\ Step /\ UNCHANGED <<rows, th>>
+        /\ PropCmp(Ev) /\ ImplCmp(Ev)
+
 \* exported index map = the documented map, on every ordered pair
 TIdx == /\ l <= Len(Tr) /\ Ev.e = "Idx" /\ Step /\ UNCHANGED <<rows, th>>
         /\ \A k \in 1..Len(Ev.tab) : Ev.tab[k][3] = Idx(Ev.tab[k][1], Ev.tab[k][2], Ev.n)
@@ -46,7 +72,58 @@ TDist == /\ l <= Len(Tr) /\ Ev.e = "Dist" /\ Step /\ UNCHANGED <<rows, th>>
             /\ \A i, j \in 1..Ev.n : Ev.sq[i][j] = SqEuclid(P, j, i) /\ Ev.man[i][j] = Manhattan(P, j, i)
             /\ MetricAxioms(P)
 
-TNext == TReset \/ TSlices \/ TValue \/ TIdx \/ TCond \/ TDist
+\* ---- Tab: a table of the real library on integer points, in the state the output object had (history) ----
+\* A: n points (rows of m1 / m), B: nb points (rows of m2; = A for the condensed form and for self tables)
+\* square:    post = <<nb, n>>,        sq[k][i] = d(A[i], B[k])      (the library stores distances->data[k][i])
+\* condensed: post = <<CondSize(n)>>,  cv[Idx(i,j,n)+1] = d(A[i+1], A[j+1]) for i < j : exactly the strict upper triangle
+TabShape(ev) == IF ev.form = "square" THEN <<ev.nb, ev.n>> ELSE <<CondSize(ev.n)>>
+TabCells(ev) ==
+  IF ev.form = "square"
+  THEN /\ Len(ev.sq) = ev.nb
+       /\ \A k \in 1..ev.nb : /\ Len(ev.sq[k]) = ev.n
+                              /\ \A i \in 1..ev.n : CellOK(ev.kind, ev.sq[k][i], ev.A[i], ev.B[k])
+  ELSE /\ Len(ev.cv) = CondSize(ev.n)
+       /\ \A p \in Pairs(ev.n) : CellOK(ev.kind, ev.cv[Idx(p[1], p[2], ev.n) + 1], ev.A[p[1] + 1], ev.A[p[2] + 1])
+\* the table as a function of two 1-based point ids (condensed: the diagonal is not stored)
+TabAt(ev, i, j) == IF ev.form = "square" THEN ev.sq[j][i]
+                   ELSE IF i = j THEN 0 ELSE ev.cv[Idx(i - 1, j - 1, ev.n) + 1]
+TabAxioms(ev) ==
+  (ev.self = 1 /\ ev.kind # "cosine") =>
+    LET n == ev.n
+        slack == IF ev.kind = "euclidean" THEN 2 ELSE 0
+    IN /\ (ev.form = "square" => ev.nb = n /\ ev.B = ev.A)
+       /\ \A i \in 1..n : TabAt(ev, i, i) = 0
+       /\ \A i, j \in 1..n : TabAt(ev, i, j) = TabAt(ev, j, i) /\ TabAt(ev, i, j) >= 0
+       /\ \A i, j, k \in 1..n :
+            IF ev.kind = "sqeuclidean" THEN TriSq(TabAt(ev, i, j), TabAt(ev, j, k), TabAt(ev, i, k))
+            ELSE TabAt(ev, i, k) <= TabAt(ev, i, j) + TabAt(ev, j, k) + slack
+\* class tags that say something about the history are certified here, so that the coverage count is not hearsay
+PreCells(ev) == IF Len(ev.pre) = 2 THEN ev.pre[1] * ev.pre[2] ELSE ev.pre[1]
+PostCells(ev) == IF ev.form = "square" THEN ev.nb * ev.n ELSE CondSize(ev.n)
+TabClsOK(ev) == CASE ev.cls = "K7:fresh"          -> PreCells(ev) = 0
+                  [] ev.cls = "K7:stale-larger"   -> PreCells(ev) > PostCells(ev) /\ PostCells(ev) > 0
+                  [] ev.cls = "K7:stale-to-empty" -> PreCells(ev) > 0 /\ PostCells(ev) = 0
+                  [] ev.cls = "K7:stale-smaller"  -> PreCells(ev) < PostCells(ev) /\ PreCells(ev) > 0
+                  [] ev.cls = "K7:same-shape"     -> ev.pre = TabShape(ev) /\ PostCells(ev) > 0
+                  [] OTHER -> TRUE
+TTab == /\ l <= Len(Tr) /\ Ev.e = "Tab" /\ Step /\ UNCHANGED <<rows, th>>
+        /\ Ev.kind \in Kinds /\ Ev.form \in {"square", "condensed"}
+        /\ Ev.exact = 1 /\ Ev.rep = 0
+        /\ Len(Ev.A) = Ev.n /\ (Ev.form = "square" => Len(Ev.B) = Ev.nb)
+        /\ Ev.post = TabShape(Ev)
+        /\ TabCells(Ev)
+        /\ TabAxioms(Ev)
+        /\ TabClsOK(Ev)
+
+\* ---- Lab: labels of integer points.  Prop: every label names A nearest centroid, repeated runs identical.   ----
+\* Impl: the FIRST nearest centroid (the tie rule of the sequential routine)
+TLab == /\ l <= Len(Tr) /\ Ev.e = "Lab" /\ Step /\ UNCHANGED <<rows, th>>
+        /\ Ev.rep = 0
+        /\ Len(Ev.lab) = Ev.n /\ Len(Ev.P) = Ev.n /\ Len(Ev.C) = Ev.k /\ Ev.k >= 1
+        /\ \A i \in 1..Ev.n : (Ev.lab[i] + 1) \in NearestSet(Ev.P[i], Ev.C)
+        /\ (PropOnly \/ \A i \in 1..Ev.n : Ev.lab[i] + 1 = FirstNearest(Ev.P[i], Ev.C))
+
+TNext == TReset \/ TSlices \/ TValue \/ TCmp \/ TIdx \/ TCond \/ TDist \/ TTab \/ TLab
 TSpec == TInit /\ [][TNext]_tvars
 TraceAccepted == Accepted
 Diag == ShowCursor(l)
